@@ -80,3 +80,55 @@ func Strs(s string, b bool) (string, int) {
 	}
 	return t, n
 }
+
+// the shape of lift.go's doc comment (split alloc): liftable uses before, unliftable after the escape
+func SplitAlloc(x int, c bool) int {
+	v := x * 2
+	if c {
+		emitI(v)
+		esc(&v)
+		emitI(v)
+	} else {
+		emitI(v + 1)
+		v += 3
+	}
+	emitI(v)
+	return v
+}
+
+func SplitAllocLoop(n int, c bool) int {
+	t := 0
+	for i := 0; i < n+1; i++ {
+		w := i * 5
+		w++
+		if c && i == 1 {
+			esc(&w)
+		}
+		t += w
+		if i == 0 {
+			w = 50
+			t += w
+		}
+	}
+	return t
+}
+
+func SplitAllocSwitch(k int) int {
+	v := k
+	var p *int
+	switch k {
+	case 0:
+		v = 10
+	case 1:
+		v = 20
+		p = &v
+		*p += 1
+	default:
+		v++
+	}
+	if p != nil {
+		*p *= 2
+	}
+	emitI(v)
+	return v
+}
